@@ -270,7 +270,9 @@ class C16(core.Prop):
                 elif typ == 'string':
                     vals.append(rng.choice(['a', 'hello', 'été', 'x y', 'a,b', 'q"uote', 'semi;colon', 'p|ipe',
                                             'tab\tbed', '日本', '007', '1.5', 'true', ' lead', 'trail ', 'NA', 'null',
-                                            'ÿ', 'multi\nline']))
+                                            'ÿ', 'multi\nline',
+                                            # Latin-1's C1 range (0x80-0x9F: other characters in Windows-1252, five undefined)
+                                            'a\x91b', 'n\x80x', 'k\x9d', '\x81z']))
                 else:
                     toks = col['toks'] or (['yyyy', 'MM', 'dd'] if typ == 'date' else ['yyyy', 'MM', 'dd', 'HH', 'mm', 'ss'])
                     vals.append(rand_instant(rng, toks))
@@ -278,7 +280,7 @@ class C16(core.Prop):
             cols.append(col)
         return {'kind': 'table', 'cols': cols, 'nrow': nrow,
                 'delimiter': rng.choice([',', ',', '|', '\t', ';', None]),
-                'encoding': rng.choice(['utf-8', 'utf-8', 'latin-1', 'utf-16', None]),
+                'encoding': rng.choice(['utf-8', 'utf-8', 'latin-1', 'utf-16', None, 'iso-8859-1', 'latin-1']),
                 'header': rng.choice([True, True, True, False]), 'no_header_how': rng.randrange(3)}
 
     # ---------------------------------------------------------------
